@@ -364,6 +364,28 @@ def targeted(pid, rng, n):
             if all(j["forever"] for j in jobs):
                 jobs[0]["forever"] = False
             out.append(dict(tree=S("top", jobs, w=rng.choice([None, None, 1, 2]), pure=rng.random() < 0.3)))
+        elif pid == "C10" and i % 3 == 2:
+            # twin-friendly trees (C10d): critical nested schedulers without window / timeout / forever jobs, handlers
+            # that take no time; the flattened graph must run every job at the same times
+            cnt = [0]
+            def grp(level):
+                nk = rng.randint(1, 3)
+                kids = []
+                for _ in range(nk):
+                    cnt[0] += 1
+                    if level < 2 and rng.random() < 0.35:
+                        kids.append(grp(level + 1))
+                    else:
+                        kids.append(J("t%d" % cnt[0], rng.choice([0, 1, 1, 2, 3]), exc=rng.random() < 0.25,
+                                      crit=rng.random() < 0.4, k=rng.choice([0, 0, 1])))
+                for a in range(1, len(kids)):
+                    kids[a]["req"] = [kids[b]["name"] for b in range(a) if rng.random() < 0.4]
+                cnt[0] += 1
+                return S("g%d" % cnt[0], kids, crit=True)
+            top = grp(0)
+            top["crit"] = rng.random() < 0.5
+            top["pure"] = rng.random() < 0.3
+            out.append(dict(tree=top))
         elif pid == "C10" and r < 0.6:
             # chains of nested schedulers with all critical-flag combinations, a failing job at the bottom
             depth = rng.randint(1, 3)
